@@ -12,18 +12,23 @@ NAMESPACE = 'Props.C20'
 LEAN_CONE = ['PncModel.Arl', 'PncProofs.ArlLemmas', 'PncProofs.C20']
 LEMMA_FILES = ['PncProofs/ArlLemmas.lean']
 REQUIRED_THEOREMS = ['bound_partial', 'unpack_inverts', 'roundtrip_partial', 'first_exact', 'checksum',
-                     'counterexample_trunc', 'counterexample_wrap']
-RULE = ('dyadic float32 fields (all float32 operations of pack2d/unpack exact), shapes 1..5 x 2..6, '
+                     'counterexample_trunc', 'counterexample_wrap', 'layout_disjoint', 'layout_size']
+RULE = ('(a) dyadic float32 fields (all float32 operations of pack2d/unpack exact), shapes 1..5 x 2..6, '
         'unit 2^j with j in -90..90; classes: random walk, constant, max difference exactly 2^k, just '
         'below 2^k, differences near -128 steps (negative-truncation region), large offsets; '
-        'non-trivial = non-constant field; distinct = distinct (shape, values)')
+        'non-trivial = non-constant field; distinct = distinct (shape, values); (b) packed-bit FILES: 2-3 time periods '
+        '(offsets up to 60 h from the first, incl. month/year ends), 2-3 levels, 1-2 surface and 1-2 upper-level variables, '
+        'grids 20-24 x 17-19; laid out per the format description by a reference encoder that packs every field with the LEAN '
+        'model of pack2d (not the library); read by arlpackedbit: variable list, level list, times, and every field equal to '
+        'what the bytes decode to (Lean unpack) and within one quantisation step of the encoded values; file size vs the Lean '
+        'layout arithmetic')
 TRUSTED_EXTRA = ['float32 log in pack2d: at exact powers of two the code may choose NEXP one below the '
                  'exact rule; the model accepts both there and takes the recorded NEXP as input',
                  'arithmetic of pack2d/unpack is compared on dyadic inputs where float32 is exact; the '
                  'theorems are over Q']
 ASSUMPTIONS = ['numpy float32 arithmetic is exact on the generated dyadic inputs',
-               'the file-layout clause of C20 (index record + one record per variable/level) is covered '
-               'by the correspondence of the reference encoder only (see DESIGN.md C20)']
+               'file layout: the label/index text formats (Fortran I/E edit descriptors) are written by the reference encoder from '
+               'the format description and are not modelled in Lean beyond the record arithmetic (layout_disjoint, layout_size)']
 KEY_NEG = 'C20/pack2d/negative-truncation'
 MIN_NONTRIVIAL = {'quick': 50, 'thorough': 500}
 
@@ -79,6 +84,16 @@ def gen(rng, tier):
         klass = CLASSES[i % len(CLASSES)]
         rows = _field(rng, klass)
         out.append(dict(klass=klass, rows=[[lib.show_rat(x) for x in r] for r in rows]))
+    out += _file_cases(rng, 6 if tier == 'quick' else 100)
+    return out
+
+
+def _file_cases(rng, n):
+    from .. import arlfmt
+    out = []
+    for _ in range(n):
+        c = arlfmt.gen(rng)
+        out.append(dict(kind='file', spec=c, rows=[[0, 1]]))
     return out
 
 
@@ -90,7 +105,64 @@ def _rows(case):
     return [[Fraction(x) for x in r] for r in case['rows']]
 
 
+def _impl_file(case):
+    import os
+    from .. import arlfmt, camx
+    from PseudoNetCDF.noaafiles._arl import arlpackedbit
+    c = case['spec']
+    b, meta = arlfmt.build(c)
+    p = os.path.join(camx.tmpdir(), 'c20_%d_%d.arl' % (os.getpid(), np.random.randint(1 << 30)))
+    open(p, 'wb').write(b)
+    try:
+        with lib.pnc_warnings():
+            try:
+                v = arlfmt.view(arlpackedbit(p), c)
+            except lib.HarnessError:
+                raise
+            except Exception as e:
+                return dict(err=type(e).__name__, msg=str(e)[:100], meta=meta)
+        v['meta'] = meta
+        v['size'] = len(b)
+        return v
+    finally:
+        os.remove(p)
+
+
+def _oracle_file(case, res):
+    from datetime import datetime, timedelta
+    c = case['spec']
+    if 'err' in res:
+        return 'reading a file laid out per the format raised %s %s' % (res['err'], res.get('msg'))
+    if res['keys'] != c['sfc'] + c['lay']:
+        return 'variable list %s, encoded %s' % (res['keys'], c['sfc'] + c['lay'])
+    if res['z'] != c['levels'][1:] or res['sfclvl'] != c['levels'][0]:
+        return 'level list %s (surface %s), encoded %s' % (res['z'], res['sfclvl'], c['levels'])
+    t0 = datetime(*c['t0'])
+    want = [(t0 + timedelta(hours=o)).strftime('%Y%m%d%H') for o in c['offs']]
+    if res['times'] != want:
+        return 'times %s, encoded %s' % (res['times'], want)
+    for k, m in res['meta'].items():
+        ti, li, key = k.split('|')
+        ti, li = int(ti), int(li)
+        arr = np.array(res['fields'][key])
+        dec = arr[ti] if li == 0 else arr[ti, li - 1]
+        orig = np.array([[float(Fraction(x)) for x in row] for row in c['fields'][k]])
+        if dec.shape != orig.shape:
+            return 'field %s has shape %s, encoded %s' % (k, dec.shape, orig.shape)
+        if dec[0, 0] != orig[0, 0]:
+            return 'field %s: first element %r, encoded %r' % (k, dec[0, 0], orig[0, 0])
+        err = np.abs(dec - orig).max()
+        if err > 2.0 ** (m['nexp'] - 7):
+            return 'field %s: error %g exceeds one quantisation step 2**(%d-7)' % (k, err, m['nexp'])
+        wantd = np.array([[float(Fraction(x)) for x in row] for row in m['decoded']])
+        if not np.array_equal(dec, wantd.astype('f').astype('d')):
+            return 'field %s: values differ from what the bytes decode to (Lean unpack)' % k
+    return None
+
+
 def impl(case):
+    if case.get('kind') == 'file':
+        return _impl_file(case)
     from PseudoNetCDF.noaafiles._arl import pack2d, unpack
     rows = _rows(case)
     x = np.array([[float(v) for v in r] for r in rows], dtype='f')
@@ -106,11 +178,19 @@ def impl(case):
 
 
 def to_line(case, res):
+    if case.get('kind') == 'file':
+        c = case['spec']
+        nrec = sum(len(c['sfc']) if li == 0 else len(c['lay']) for li in range(len(c['levels'])))
+        return 'c20 layout %d %d %d' % (c['nx'] * c['ny'], len(c['offs']), nrec)
     nexp = res.get('nexp', 0)
     return 'c20 pack %d %s' % (nexp, lib.show_rows(case['rows']))
 
 
 def agree(case, out, res):
+    if case.get('kind') == 'file':
+        if 'err' in res:
+            return None
+        return None if out == 'ok %d' % res['size'] else 'file has %d bytes, the layout model says %s' % (res['size'], out)
     st, kv = lib.parse_kv(out)
     if 'err' in res:
         return None if st == 'err' else 'impl raised %s, model: %s' % (res['err'], out[:80])
@@ -135,6 +215,8 @@ def agree(case, out, res):
 
 def oracle(case, res):
     """the property itself on the real code's output"""
+    if case.get('kind') == 'file':
+        return _oracle_file(case, res)
     if 'err' in res:
         return 'pack2d/unpack raised %s' % res['err']
     rows = _rows(case)
@@ -152,6 +234,8 @@ def oracle(case, res):
 
 
 def classify(case, failure, model_out):
+    if case.get('kind') == 'file':
+        return None
     st, kv = lib.parse_kv(model_out)
     if st == 'ok' and kv.get('negtrunc') == '1' and failure.startswith('error'):
         return KEY_NEG
@@ -159,6 +243,8 @@ def classify(case, failure, model_out):
 
 
 def nontrivial(case, res):
+    if case.get('kind') == 'file':
+        return 'err' not in res and len(case['spec']['offs']) >= 2
     flat = [x for r in case['rows'] for x in r]
     return len(set(flat)) > 1
 
@@ -171,7 +257,7 @@ def witnesses():
 def distribution(recs):
     d = {}
     for r in recs:
-        k = r['case']['klass']
+        k = r['case'].get('klass', 'file')
         d[k] = d.get(k, 0) + 1
     d['negtrunc_cases'] = sum(1 for r in recs if 'negtrunc=1' in r['model'])
     d['nexp_min'] = min((r['impl'].get('nexp', 0) for r in recs), default=0)
